@@ -131,6 +131,13 @@ class PathState:
         r = self._check(cond)
         return r
 
+    def require_feasible(self):
+        """Cut the path (PathAbort) when the harness' assumptions made it infeasible."""
+        self.model = None
+        if not self._check(None):
+            raise PathAbort("assumptions infeasible")
+        self.model = self.solver.model()
+
     def get_model(self):
         if self.model is None:
             if not self._check(None):
@@ -358,6 +365,7 @@ class Interp:
         self.depth = 0
         self.oracles = {}
         self.env = {}       # harness-provided environment (oracle tables, flags)
+        self._ov_cache = {}
         self.log = []
 
     # ------------------------------------------------------------------ places
@@ -374,6 +382,8 @@ class Interp:
                     cont, key = v.container, v.key
                 elif isinstance(v, Box):
                     cont, key = v.cell, 0
+                elif isinstance(v, (Str, Slice, Opaque)):
+                    pass        # fat pointers to unsized data are their own referent in this model (reborrow `&*s`)
                 else:
                     raise Unsupported("deref of %r in %s" % (type(v).__name__, fr.fn.name))
             elif k == "field":
@@ -472,6 +482,8 @@ class Interp:
             f = self._find_promoted(c[1], c[2])
             return self.call_function(f, [])
         if k == "named":
+            if c[1].endswith("UNIX_EPOCH"):
+                return Opaque("time", 0)
             r = self.p.resolve_named_const(c[1])
             if r is not None and r[0] != "unparsed":
                 return self.const_value(r, fr)
@@ -885,11 +897,18 @@ class Interp:
         key = self.models.key_of(callee)
         ov = self.env.get("overrides")
         if ov:
-            segs = key.split("::")
-            for k in (key, "::".join(segs[-2:]), segs[-1]):
-                if k in ov:
-                    self.stats.models_used.add("override:" + k)
-                    return ov[k](self, args, callee)
+            hit = self._ov_cache.get(callee, 0)
+            if hit == 0:
+                hit = None
+                segs = key.split("::")
+                for k in (key, "::".join(segs[-2:]), segs[-1]):
+                    if k in ov:
+                        hit = k
+                        break
+                self._ov_cache[callee] = hit
+            if hit is not None and hit in ov:
+                self.stats.models_used.add("override:" + hit)
+                return ov[hit](self, args, callee)
         if f is not None and not self.models.overrides(key, callee):
             return self.call_function(f, args)
         m = self.models.lookup(key, callee)
